@@ -9,8 +9,10 @@ use proptest::prelude::*;
 use serde::{Deserialize, Serialize};
 use std::collections::BTreeSet;
 
-pub const FIRST: [&str; 50] = [
-    "user", "item", "cart", "book", "page", "line", "note", "task", "team", "role", "city", "road", "ship", "tree", "wind", "rain", "snow", "fire", "lake", "hill",
+pub const FIRST: [&str; 51] = [
+    // a first word "xml": names such as xmlData (a global element of that name is referred to as
+    // ref="tns:xmlData", which is not a reference into the XML namespace)
+    "xml", "user", "item", "cart", "book", "page", "line", "note", "task", "team", "role", "city", "road", "ship", "tree", "wind", "rain", "snow", "fire", "lake", "hill",
     "bird", "fish", "wolf", "bear", "lion", "frog", "moth", "seed", "leaf", "root", "door", "wall", "roof", "lamp", "desk", "sofa", "coin", "bank", "loan", "bill",
     "mail", "post", "news", "song", "film", "game", "card", "dice", "king", "pawn",
 ];
